@@ -22,6 +22,8 @@
   * `for_each_flattened_attr_interp` the same for the iterator-side `for_each_flattened`.
   * `flatten_wellnested`            adapters map well-nested call sequences to well-nested ones.
   * `flatten_commutes_builder_iter` flattening while building = flattening while iterating.
+  * `flatten_commutes_with_attributes` … and = `for_each_flattened`, attributes included.
+  * `flatIter_wellformed`           the iterator-side flattened stream is a well-formed path.
   * `nesting_orders`                flatten∘transform and transform∘flatten keep the same
                                     (transformed) endpoints; inserted points may differ.
 
@@ -329,6 +331,127 @@ theorem flatten_commutes_builder_iter (F : Flattener π K) (G : IterFlattener π
     specEvents (flatBuilder F o n prog) = flatIter G (specEvents prog) :=
   flatRun_events F G hF hq hc none _ prog h (by intro f c h; cases h)
 
+/-! ## Builder-side flattening = `for_each_flattened`, attributes included -/
+
+/-- the hypothesis on the callback flattener for the whole-stream statement: the segments of a
+curve form a chain starting at `from` (C09 `connected`) and end with `(to, t = 1)` -/
+def ChainedToEnd (F : Flattener π K) : Prop :=
+  EndsAtTo F ∧ (∀ a c b, Chained a (F.quad a c b)) ∧ (∀ a c d b, Chained a (F.cubic a c d b))
+
+theorem specRun_attrEvents (F : Flattener π K) (hF : ChainedToEnd F) (n : Nat)
+    (st : Option (AP π K × AP π K)) (s : FlatB π K) (prog : List (Call π (List K)))
+    (hn : wellNestedFrom st.isSome prog = true) (hlen : attrsLen n prog = true)
+    (hs : ∀ f c, st = some (f, c) → s.cur = c.1 ∧ s.prev = c.2 ∧ c.2.length = n) :
+    specFrom st ((FlatB.specRun F s prog).map aCall) = flatAttrIter F (specFrom st (prog.map aCall)) := by
+  induction prog generalizing st s with
+  | nil => cases st <;> simp [FlatB.specRun, specFrom, flatAttrIter]
+  | cons c r ih =>
+    cases st with
+    | none =>
+      cases c with
+      | begin p a =>
+        simp only [attrsLen, Bool.and_eq_true, beq_iff_eq] at hlen
+        have := ih (some ((p, a), (p, a))) ⟨p, a⟩ (by simpa [wellNestedFrom] using hn) hlen.2
+          (by intro f c h; cases h; exact ⟨rfl, rfl, hlen.1⟩)
+        simpa [FlatB.specRun, FlatB.specStep, specFrom, flatAttrIter, aCall] using this
+      | line p a => simp [wellNestedFrom] at hn
+      | quad k p a => simp [wellNestedFrom] at hn
+      | cubic k1 k2 p a => simp [wellNestedFrom] at hn
+      | end_ cl => simp [wellNestedFrom] at hn
+    | some fc =>
+      obtain ⟨f, c0⟩ := fc
+      obtain ⟨hcur, hprev, hl⟩ := hs f c0 rfl
+      cases c with
+      | begin p a => simp [wellNestedFrom] at hn
+      | line p a =>
+        simp only [attrsLen, Bool.and_eq_true, beq_iff_eq] at hlen
+        have := ih (some (f, (p, a))) ⟨p, a⟩ (by simpa [wellNestedFrom] using hn) hlen.2
+          (by intro f c h; cases h; exact ⟨rfl, rfl, hlen.1⟩)
+        simpa [FlatB.specRun, FlatB.specStep, specFrom, flatAttrIter, aCall] using this
+      | quad k p a =>
+        simp only [attrsLen, Bool.and_eq_true, beq_iff_eq] at hlen
+        obtain ⟨l, x, hlx⟩ := hF.1.1 c0.1 k p
+        have hch := hF.2.1 c0.1 k p
+        have := ih (some (f, (p, a))) ⟨p, a⟩ (by simpa [wellNestedFrom] using hn) hlen.2
+          (by intro f c h; cases h; exact ⟨rfl, rfl, hlen.1⟩)
+        have hend : endAP c0.2 a (c0.1, c0.2) (F.quad c0.1 k p) = (p, a) := by
+          rw [hlx, endAP_snoc, interp_one c0.2 a (by rw [hl, hlen.1])]
+        simp only [FlatB.specRun, FlatB.specStep, List.map_append, hcur, hprev, List.map_cons, aCall,
+          specFrom, flatAttrIter]
+        rw [show (c0 : AP π K) = (c0.1, c0.2) from rfl,
+          specFrom_specLines f c0.1 c0.2 c0.2 a _ hch, hend, this]
+      | cubic k1 k2 p a =>
+        simp only [attrsLen, Bool.and_eq_true, beq_iff_eq] at hlen
+        obtain ⟨l, x, hlx⟩ := hF.1.2 c0.1 k1 k2 p
+        have hch := hF.2.2 c0.1 k1 k2 p
+        have := ih (some (f, (p, a))) ⟨p, a⟩ (by simpa [wellNestedFrom] using hn) hlen.2
+          (by intro f c h; cases h; exact ⟨rfl, rfl, hlen.1⟩)
+        have hend : endAP c0.2 a (c0.1, c0.2) (F.cubic c0.1 k1 k2 p) = (p, a) := by
+          rw [hlx, endAP_snoc, interp_one c0.2 a (by rw [hl, hlen.1])]
+        simp only [FlatB.specRun, FlatB.specStep, List.map_append, hcur, hprev, List.map_cons, aCall,
+          specFrom, flatAttrIter]
+        rw [show (c0 : AP π K) = (c0.1, c0.2) from rfl,
+          specFrom_specLines f c0.1 c0.2 c0.2 a _ hch, hend, this]
+      | end_ cl =>
+        simp only [attrsLen] at hlen
+        have := ih none s (by simpa [wellNestedFrom] using hn) hlen (by intro f c h; cases h)
+        simpa [FlatB.specRun, FlatB.specStep, specFrom, flatAttrIter, aCall] using this
+
+/-- Flattening while building and `for_each_flattened` over the stored, unflattened path give the
+same stream INCLUDING attributes: for every well-nested program with `n` attributes, what
+`iter_with_attributes` shows of the path built through `Flattened` is exactly what
+`iter_with_attributes().for_each_flattened` yields for the path built without it (same
+tolerance, i.e. same flattener `F`, which is chained and ends at `(to, 1)`). -/
+theorem flatten_commutes_with_attributes (F : Flattener π K) (hF : ChainedToEnd F) (o : π) (n : Nat)
+    (prog : List (Call π (List K))) (hn : WellNested prog) (hlen : attrsLen n prog = true) :
+    attrEvents (flatBuilder F o n prog) = flatAttrIter F (attrEvents prog) := by
+  rw [flatten_attr_interp F o n prog hlen]
+  exact specRun_attrEvents F hF n none _ prog hn hlen (by intro f c h; cases h)
+
+/-! ## The flattened stream is a well-formed path -/
+
+theorem wellFormed_chain [DecidableEq π] (f a : π) (l : List π) (b : π) (rest : List (Event π)) :
+    wellFormedFrom (some (f, a)) (chain a (l ++ [b]) ++ rest) = wellFormedFrom (some (f, b)) rest := by
+  induction l generalizing a with
+  | nil => simp [chain, wellFormedFrom]
+  | cons p r ih => simpa [chain, wellFormedFrom] using ih p
+
+/-- `iterator::Flattened` maps a well-formed event stream (every edge starts where the previous
+one ended, `End` names the last and first point) to a well-formed one, when the curve iterators
+end at `to`.  (In f32 this needed lyon commit e20d2048 for cubics.) -/
+theorem flatIter_wellformed [DecidableEq π] (G : IterFlattener π) (hG : IterEndsAtTo G)
+    (evs : List (Event π)) (h : WellFormed evs) : WellFormed (flatIter G evs) := by
+  suffices H : ∀ st, wellFormedFrom st evs = true → wellFormedFrom st (flatIter G evs) = true from
+    H none h
+  induction evs with
+  | nil => intro st h; simpa [flatIter] using h
+  | cons e r ih =>
+    intro st h
+    cases st with
+    | none =>
+      cases e <;> simp only [wellFormedFrom, flatIter] at h ⊢ <;> try (exact absurd h (by simp))
+      exact ih _ h
+    | some fc =>
+      obtain ⟨f, c⟩ := fc
+      cases e with
+      | begin p => simp [wellFormedFrom] at h
+      | line a b =>
+        simp only [wellFormedFrom, flatIter, Bool.and_eq_true] at h ⊢
+        exact ⟨h.1, ih _ h.2⟩
+      | quad a k b =>
+        simp only [wellFormedFrom, Bool.and_eq_true, beq_iff_eq] at h
+        obtain ⟨l, hl⟩ := hG.1 a k b
+        simp only [flatIter, hl, h.1, wellFormed_chain]
+        exact ih _ h.2
+      | cubic a k1 k2 b =>
+        simp only [wellFormedFrom, Bool.and_eq_true, beq_iff_eq] at h
+        obtain ⟨l, hl⟩ := hG.2 a k1 k2 b
+        simp only [flatIter, hl, h.1, wellFormed_chain]
+        exact ih _ h.2
+      | end_ l fst cl =>
+        simp only [wellFormedFrom, flatIter, Bool.and_eq_true] at h ⊢
+        exact ⟨h.1, ih _ h.2⟩
+
 /-! ## Both nesting orders -/
 
 /-- `Flattened<Transformed<_>>` (flatten, then transform: `b.transformed(g).flattened(tol)`) and
@@ -421,6 +544,12 @@ example : ∃ G : IterFlattener Int, EndsAtTo qFlattener ∧
   ⟨⟨fun a _ b => [a, b], fun a _ _ b => [a, a, b]⟩,
    ⟨fun a _ b => ⟨[⟨a, a, 1/2⟩], a, rfl⟩, fun a _ _ b => ⟨[⟨a, a, 1/3⟩, ⟨a, a, 2/3⟩], a, rfl⟩⟩,
    fun _ _ _ => rfl, fun _ _ _ _ => rfl⟩
+
+/-- `ChainedToEnd` is satisfiable (a chained flattener with inserted points) -/
+example : ChainedToEnd midFlattener :=
+  ⟨⟨fun a _ b => ⟨[⟨a, (a + b) / 2, 1/2⟩], (a + b) / 2, rfl⟩,
+    fun a _ _ b => ⟨[⟨a, (a + b) / 2, 1/2⟩], (a + b) / 2, rfl⟩⟩,
+   fun a _ b => ⟨rfl, rfl, trivial⟩, fun a _ _ b => ⟨rfl, rfl, trivial⟩⟩
 
 /-- hypothesis of `flatten_attr_interp` on a program with a curve as FIRST edge and two
 attributes -/
